@@ -134,7 +134,7 @@ def sameEntries (a b : List Entry) : Bool :=
 def showEntries (es : List Entry) : String :=
   ";".intercalate (es.map (fun e => s!"0x{natHex e.index}:{e.offset}:{e.typ}"))
 
-def handleFrag (payload impl : String) : String × String :=
+def handleFrag (tbl : Array (Nat × Nat)) (payload impl : String) : String × String :=
   match payload.splitOn " ", impl.splitOn " ### " with
   | [_, _, _, _, _, ren], [a, b, ab, p, q] =>
     let segs :=
@@ -151,7 +151,12 @@ def handleFrag (payload impl : String) : String × String :=
           (if sameEntries renamed lq then []
            else [(s!"C11-renaming-changes-types: P=[{showEntries lp}] renamed P=[{showEntries lq}]".take 600).toString])
         | _, _, _, _, _ => ["C11-no-layout:" ++ (impl.take 160).toString]
-    ("n/a", verdictOf segs)
+    -- K: each of the five programs through the whole-pipeline model
+    let hexes := (payload.splitOn " ").take 5
+    let model := " ### ".intercalate ((hexes.zip [a, b, ab, p, q]).map (fun (hex, ans) =>
+      let core := ((ans.splitOn " polls=").headD ans)
+      pipelineModel tbl ("sorted 30000000,10,50,250,394,0 " ++ hex) core ++ ((ans.splitOn core).getD 1 "")))
+    (model, verdictOf segs)
   | _, _ => ("bad-request", "ok")
 
 end SLE.Driver.IdiomD
